@@ -212,11 +212,11 @@ type genOpts struct {
 }
 
 var accountPool = map[string][]string{
-	"Assets":      {"Assets:Bank", "Assets:Bank:Checking", "Assets:Bank:Savings", "Assets:Portfolio", "Assets:Cash", "Assets:Broker:Acc1", "Assets:Receivables"},
+	"Assets":      {"Assets:Bank", "Assets:Bank:Checking", "Assets:Bank:Savings", "Assets:Portfolio", "Assets:Cash", "Assets:Broker:Acc1", "Assets:Receivables", "Assets:Broker:Acc2:Sub:Leaf"},
 	"Liabilities": {"Liabilities:CreditCard", "Liabilities:Mortgage", "Liabilities:Loans:Car"},
 	"Equity":      {"Equity:Equity", "Equity:Opening", "Equity:Valuation:Misc"},
 	"Income":      {"Income:Salary", "Income:Dividends", "Income:Interest:Bank", "Income:Portfolio"},
-	"Expenses":    {"Expenses:Rent", "Expenses:Groceries", "Expenses:Fees", "Expenses:Taxes:Federal", "Expenses:Insurance"},
+	"Expenses":    {"Expenses:Rent", "Expenses:Groceries", "Expenses:Fees", "Expenses:Taxes:Federal", "Expenses:Insurance", "Expenses:Taxes:Cantonal:Direct:Y2020"},
 }
 var typeOrder = []string{"Assets", "Liabilities", "Equity", "Income", "Expenses"}
 
